@@ -499,23 +499,31 @@ def reuse_case(args):
              "nanopore" if "--data_type" not in extra else extra[extra.index("--data_type") + 1],
              "--genedb", paths["gtf"], "--complete_genedb", "--prefix", "OUT", "--threads", "1"] + \
             [x for x in extra if x not in ("--data_type", "pacbio_ccs")]
-    rc2 = run.run_isoquant(argv2, paths["home"], os.path.join(d, "o2.txt"))
-    if rc2 != 0:
-        return name, "reuse run failed rc=%d: %s" % (rc2, open(os.path.join(d, "o2.txt")).read()[-400:]), None
     t1 = run.read_tree(os.path.join(out1, "OUT"))
-    t2 = run.read_tree(os.path.join(out2, "OUT0"))
     diffs = []
-    t2n = {k.replace("OUT0.", "OUT."): v.replace(b"OUT0", b"OUT") for k, v in t2.items()}
-    for k in sorted(set(t1) | set(t2n)):
-        if k not in t2n:
-            diffs.append("missing:" + k)
-        elif k not in t1:
-            diffs.append("extra:" + k)
-        elif t1[k] != t2n[k]:
-            l1, l2 = t1[k].split(b"\n"), t2n[k].split(b"\n")
-            first = next((i for i, (a, b) in enumerate(zip(l1, l2)) if a != b), min(len(l1), len(l2)))
-            diffs.append("differs:%s line %d: %r vs %r" % (k, first, l1[first][:80] if first < len(l1) else b"",
-                                                           l2[first][:80] if first < len(l2) else b""))
+    # a history of restarts from the SAME saved assignments (the first without --keep_tmp, the second with it, the third without):
+    # every one of them has to reproduce the saving run, i.e. a restart must not consume or alter what it was started from
+    for step, keep in enumerate((0, 1, 0)):
+        outn = os.path.join(d, "out%d" % (step + 2))
+        av = list(argv2)
+        av[1] = outn
+        rc2 = run.run_isoquant(av + (["--keep_tmp"] if keep else []), paths["home"], os.path.join(d, "o2.txt"))
+        if rc2 != 0:
+            return name, "reuse run %d failed rc=%d: %s" % (step + 1, rc2, open(os.path.join(d, "o2.txt")).read()[-400:]), None
+        t2 = run.read_tree(os.path.join(outn, "OUT0"))
+        t2n = {k.replace("OUT0.", "OUT."): v.replace(b"OUT0", b"OUT") for k, v in t2.items()}
+        sfx = "" if step == 0 else ":restart%d" % (step + 1)
+        for k in sorted(set(t1) | set(t2n)):
+            if k not in t2n:
+                diffs.append("missing:" + k + sfx)
+            elif k not in t1:
+                diffs.append("extra:" + k + sfx)
+            elif t1[k] != t2n[k]:
+                l1, l2 = t1[k].split(b"\n"), t2n[k].split(b"\n")
+                first = next((i for i, (a, b) in enumerate(zip(l1, l2)) if a != b), min(len(l1), len(l2)))
+                diffs.append("differs:%s%s line %d: %r vs %r" % (k, sfx, first, l1[first][:80] if first < len(l1) else b"",
+                                                                 l2[first][:80] if first < len(l2) else b""))
+        shutil.rmtree(outn, ignore_errors=True)
     shutil.rmtree(d, ignore_errors=True)
     return name, None, diffs
 
@@ -556,14 +564,14 @@ def run(ctx):
     worlds = reuse_worlds(ctx.tier)
     n4 = 0
     for name, err, diffs in core.pmap(reuse_case, [(n, w, e, ctx.scratch) for n, w, e in worlds], jobs=min(6, core.NCPU)):
-        n4 += 2
+        n4 += 4
         if err:
             ctx.violation("reuse:%s:failed" % name, "world %s: %s" % (name, err), {"level": 4, "world": name})
         for dmsg in diffs or []:
             fname = dmsg.split(":")[1].split(" ")[0]
             ctx.violation("reuse:%s:%s" % (name, fname), "world %s: --read_assignments run %s" % (name, dmsg),
                           {"level": 4, "world": name, "diff": dmsg})
-    ctx.note("L4 reuse: %d worlds (2 pipeline runs each)" % len(worlds))
+    ctx.note("L4 reuse: %d worlds (saving run + a history of 3 restarts from the same saves each)" % len(worlds))
     ctx.coverage.update({
         "states": states + n2, "transitions": transitions + n2,
         "traces_validated_against_impl": execs + n2 + n1 + n4,
